@@ -104,6 +104,129 @@ fn fold_gaps(lines: &[Line]) -> Vec<Line> {
     v
 }
 
+/// The module-list oracle proper: everything it needs is the target's pid (memory map, files), the
+/// caller's user-mapping list, the program entry point in force, and the image.  `saved_content` holds
+/// the bytes of files that were unlinked after loading (their content cannot be read back from disk);
+/// groups of unlinked files without saved content are not judged (`lenient_deleted`).
+pub fn judge_modules(pid: i32, user: &[UserMap], entry: u64, saved_content: &[(String, Vec<u8>)], lenient_deleted: bool, bytes: &[u8]) -> (Vec<(String, String)>, usize) {
+    let mut fails: Vec<(String, String)> = Vec::new();
+    let lines = fold_gaps(&parse_maps(&std::fs::read(format!("/proc/{pid}/maps")).unwrap_or_default()).unwrap_or_default());
+    let gs = groups(&lines);
+    let bytes = bytes.to_vec();
+    let d = Dump::parse(&bytes);
+    // expected modules
+    let mut expected: Vec<(u64, u64, Vec<u8>, String, u64)> = Vec::new(); // base, size, id, name, size incl. trailing reserved gap
+    for g in &gs {
+        if !g.name.contains(&b'/') && g.name != b"[vdso]" {
+            continue;
+        }
+        let size = g.end - g.start;
+        if !(g.first_offset == 0 || g.any_exec) || size < 4096 {
+            continue;
+        }
+        if user.iter().any(|u| g.start as usize >= u.start && g.end as usize <= u.start + u.size) {
+            continue; // suppressed by a user mapping that wholly contains it
+        }
+        let path = String::from_utf8_lossy(&g.name).into_owned();
+        let image: Vec<u8> = if g.name == b"[vdso]" {
+            read_target(pid, g.start, size as usize)
+        } else if let Some((_, content)) = saved_content.iter().find(|(pth, _)| pth == &path).filter(|_| g.deleted) {
+            content.clone()
+        } else {
+            // regular files only (a mapping of /dev/zero must not make the oracle read the device for ever)
+            let regular = std::fs::metadata(&path).map(|m| m.is_file() && m.len() <= (256 << 20)).unwrap_or(false);
+            let all = if regular && !path.starts_with("/dev/") { std::fs::read(&path).unwrap_or_default() } else { Vec::new() };
+            if g.first_offset as usize <= all.len() { all[g.first_offset as usize..].to_vec() } else { vec![] }
+        };
+        let Ok(r) = ElfRef::parse(&image) else { continue };
+        if !r.well_formed() {
+            continue;
+        }
+        let Some(id) = r.expected_build_id() else { continue };
+        if id.is_empty() || id.iter().all(|b| *b == 0) {
+            continue;
+        }
+        let path = if g.name == b"[vdso]" { "linux-gate.so".to_string() } else { path };
+        let name = {
+            match r.expected_soname() {
+                Some(Some(so)) => {
+                    let pb = std::path::PathBuf::from(&path);
+                    if g.any_exec && g.first_offset != 0 {
+                        pb.join(&so).to_string_lossy().into_owned()
+                    } else {
+                        pb.with_file_name(&so).to_string_lossy().into_owned()
+                    }
+                }
+                _ => path.clone(),
+            }
+        };
+        expected.push((g.start, size, id, name, g.end_with_gap - g.start));
+    }
+    // compare
+    let listed: Vec<&mdv_core::mdparse::Module> = d.modules.iter().collect();
+    for (base, size, id, name, size_gap) in &expected {
+        let hits: Vec<&&mdv_core::mdparse::Module> = listed.iter().filter(|m| m.base == *base).collect();
+        let short = name.rsplit('/').next().unwrap_or(name);
+        match hits.len() {
+            0 => fails.push(("module-missing".into(), format!("no module record for {name} at {base:#x} (+{size:#x})"))),
+            1 => {
+                let m = hits[0];
+                if m.size as u64 != *size && m.size as u64 != *size_gap {
+                    fails.push(("module-extent".into(), format!("{short}: size {:#x}, the merged extent of its mappings is {size:#x}", m.size)));
+                }
+                if m.cv_signature != Some(mdv_core::mdparse::CV_SIGNATURE_ELF) || &m.cv_id != id {
+                    fails.push(("module-build-id".into(), format!("{short}: debug record holds {} but the independent reader finds {}", mdv_core::hex(&m.cv_id), mdv_core::hex(id))));
+                }
+                if m.name.as_deref() != Some(name.as_str()) {
+                    fails.push(("module-name".into(), format!("module at {base:#x} is named {:?}, expected {name:?}", m.name)));
+                }
+            }
+            k => fails.push(("module-duplicated".into(), format!("{short}: {k} module records"))),
+        }
+    }
+    for m in &listed {
+        let is_user = user.iter().any(|u| u.start as u64 == m.base);
+        let in_unjudged_deleted = lenient_deleted && gs.iter().any(|g| g.deleted && g.start == m.base && !saved_content.iter().any(|(pth, _)| pth.as_bytes() == &g.name[..]));
+        if !is_user && !in_unjudged_deleted && !expected.iter().any(|e| e.0 == m.base) {
+            fails.push(("unexpected-module".into(), format!("module record {:?} at {:#x} (+{:#x}, id {}) corresponds to no file-backed group with a non-zero build id", m.name, m.base, m.size, mdv_core::hex(&m.cv_id))));
+        }
+    }
+    for u in user {
+        match listed.iter().find(|m| m.base == u.start as u64) {
+            Some(m) => {
+                if m.size as usize != u.size || m.name.as_deref() != Some(u.name.as_str()) || m.cv_id != u.id {
+                    fails.push(("user-mapping-altered".into(), format!("user mapping {} listed as base {:#x} size {:#x} name {:?} id {}", u.name, m.base, m.size, m.name, mdv_core::hex(&m.cv_id))));
+                }
+            }
+            None => fails.push(("user-mapping-missing".into(), format!("user mapping {} is not in the module list", u.name))),
+        }
+    }
+    // first module contains the entry point
+    if let Some(m) = listed.first() {
+        if !(entry >= m.base && entry < m.base + m.size as u64) && expected.iter().any(|e| entry >= e.0 && entry < e.0 + e.1) {
+            fails.push(("entry-module-not-first".into(), format!("the first module {:?} does not contain the program entry point {entry:#x}", m.name)));
+        }
+    }
+    // no overlaps (user mappings that partially overlap a target module are the caller's business)
+    let mut sorted: Vec<&&mdv_core::mdparse::Module> = listed.iter().filter(|m| !user.iter().any(|u| u.start as u64 == m.base)).collect();
+    sorted.sort_by_key(|m| m.base);
+    for w in sorted.windows(2) {
+        if w[0].base + w[0].size as u64 > w[1].base {
+            fails.push(("modules-overlap".into(), format!("{:?} and {:?} overlap", w[0].name, w[1].name)));
+        }
+    }
+    (fails, expected.len())
+}
+
+fn read_target(pid: i32, addr: u64, len: usize) -> Vec<u8> {
+    use std::os::unix::fs::FileExt;
+    let mut b = vec![0u8; len];
+    match std::fs::File::open(format!("/proc/{pid}/mem")).and_then(|f| f.read_exact_at(&mut b, addr)) {
+        Ok(()) => b,
+        Err(_) => Vec::new(),
+    }
+}
+
 pub fn run_case(c: &Case) -> (Vec<(String, String)>, usize) {
     let mut fails = Vec::new();
     let mut p = Puppet::spawn();
@@ -174,107 +297,10 @@ pub fn run_case(c: &Case) -> (Vec<(String, String)>, usize) {
             return (fails, 0);
         }
     };
-    let d = Dump::parse(&bytes);
-    // expected modules
-    let mut expected: Vec<(u64, u64, Vec<u8>, String, u64)> = Vec::new(); // base, size, id, name, size incl. trailing reserved gap
-    for g in &gs {
-        if !g.name.contains(&b'/') && g.name != b"[vdso]" {
-            continue;
-        }
-        let size = g.end - g.start;
-        if !(g.first_offset == 0 || g.any_exec) || size < 4096 {
-            continue;
-        }
-        if user.iter().any(|u| g.start as usize >= u.start && g.end as usize <= u.start + u.size) {
-            continue; // suppressed by a user mapping that wholly contains it
-        }
-        let path = String::from_utf8_lossy(&g.name).into_owned();
-        let image: Vec<u8> = if g.name == b"[vdso]" {
-            p.read(g.start, size as usize)
-        } else if let Some((_, content)) = saved_content.iter().find(|(pth, _)| pth == &path).filter(|_| g.deleted) {
-            content.clone()
-        } else {
-            let all = std::fs::read(&path).unwrap_or_default();
-            if g.first_offset as usize <= all.len() { all[g.first_offset as usize..].to_vec() } else { vec![] }
-        };
-        let Ok(r) = ElfRef::parse(&image) else { continue };
-        if !r.well_formed() {
-            continue;
-        }
-        let Some(id) = r.expected_build_id() else { continue };
-        if id.is_empty() || id.iter().all(|b| *b == 0) {
-            continue;
-        }
-        let path = if g.name == b"[vdso]" { "linux-gate.so".to_string() } else { path };
-        let name = {
-            match r.expected_soname() {
-                Some(Some(so)) => {
-                    let pb = std::path::PathBuf::from(&path);
-                    if g.any_exec && g.first_offset != 0 {
-                        pb.join(&so).to_string_lossy().into_owned()
-                    } else {
-                        pb.with_file_name(&so).to_string_lossy().into_owned()
-                    }
-                }
-                _ => path.clone(),
-            }
-        };
-        expected.push((g.start, size, id, name, g.end_with_gap - g.start));
-    }
-    // compare
-    let listed: Vec<&mdv_core::mdparse::Module> = d.modules.iter().collect();
-    for (base, size, id, name, size_gap) in &expected {
-        let hits: Vec<&&mdv_core::mdparse::Module> = listed.iter().filter(|m| m.base == *base).collect();
-        let short = name.rsplit('/').next().unwrap_or(name);
-        match hits.len() {
-            0 => fails.push(("module-missing".into(), format!("no module record for {name} at {base:#x} (+{size:#x})"))),
-            1 => {
-                let m = hits[0];
-                if m.size as u64 != *size && m.size as u64 != *size_gap {
-                    fails.push(("module-extent".into(), format!("{short}: size {:#x}, the merged extent of its mappings is {size:#x}", m.size)));
-                }
-                if m.cv_signature != Some(mdv_core::mdparse::CV_SIGNATURE_ELF) || &m.cv_id != id {
-                    fails.push(("module-build-id".into(), format!("{short}: debug record holds {} but the independent reader finds {}", mdv_core::hex(&m.cv_id), mdv_core::hex(id))));
-                }
-                if m.name.as_deref() != Some(name.as_str()) {
-                    fails.push(("module-name".into(), format!("module at {base:#x} is named {:?}, expected {name:?}", m.name)));
-                }
-            }
-            k => fails.push(("module-duplicated".into(), format!("{short}: {k} module records"))),
-        }
-    }
-    for m in &listed {
-        let is_user = user.iter().any(|u| u.start as u64 == m.base);
-        if !is_user && !expected.iter().any(|e| e.0 == m.base) {
-            fails.push(("unexpected-module".into(), format!("module record {:?} at {:#x} (+{:#x}, id {}) corresponds to no file-backed group with a non-zero build id", m.name, m.base, m.size, mdv_core::hex(&m.cv_id))));
-        }
-    }
-    for u in &user {
-        match listed.iter().find(|m| m.base == u.start as u64) {
-            Some(m) => {
-                if m.size as usize != u.size || m.name.as_deref() != Some(u.name.as_str()) || m.cv_id != u.id {
-                    fails.push(("user-mapping-altered".into(), format!("user mapping {} listed as base {:#x} size {:#x} name {:?} id {}", u.name, m.base, m.size, m.name, mdv_core::hex(&m.cv_id))));
-                }
-            }
-            None => fails.push(("user-mapping-missing".into(), format!("user mapping {} is not in the module list", u.name))),
-        }
-    }
-    // first module contains the entry point
-    if let Some(m) = listed.first() {
-        if !(entry >= m.base && entry < m.base + m.size as u64) && expected.iter().any(|e| entry >= e.0 && entry < e.0 + e.1) {
-            fails.push(("entry-module-not-first".into(), format!("the first module {:?} does not contain the program entry point {entry:#x}", m.name)));
-        }
-    }
-    // no overlaps (user mappings that partially overlap a target module are the caller's business)
-    let mut sorted: Vec<&&mdv_core::mdparse::Module> = listed.iter().filter(|m| !user.iter().any(|u| u.start as u64 == m.base)).collect();
-    sorted.sort_by_key(|m| m.base);
-    for w in sorted.windows(2) {
-        if w[0].base + w[0].size as u64 > w[1].base {
-            fails.push(("modules-overlap".into(), format!("{:?} and {:?} overlap", w[0].name, w[1].name)));
-        }
-    }
+    let (f2, n_expected) = judge_modules(p.pid, &user, entry, &saved_content, false, &bytes);
+    fails.extend(f2);
     let _ = std::fs::remove_dir_all(&dir);
-    (fails, expected.len())
+    (fails, n_expected)
 }
 
 fn menu(thorough: bool) -> Vec<Case> {
